@@ -3,6 +3,8 @@
 //     real_f(s) == spec_f(s)      (same Option-ness, same remainder pointer+length, same AST value)
 // for every input string s of the shape stated per harness. Callees are replaced by their
 // specifications (`#[kani::stub]`), which the callee's own obligation licenses.
+//
+// The constants A_*, W_* (string length bounds per tier) are prepended by props/C03.py.
 use super::spec::*;
 use super::*;
 
@@ -22,73 +24,69 @@ fn init_xid() {
     }
 }
 
-// ---- symbolic input strings ----------------------------------------------------------------------
-pub(crate) const CAP: usize = 16;
+// ---- symbolic input strings (all buffer indices concrete) -----------------------------------------
+/// every ASCII string of length <= n (n <= 8), every byte an arbitrary 7-bit value
+fn ascii(buf: &mut [u8; 8], n_max: usize) -> &str {
+    let x: u64 = kani::any();
+    kani::assume(x & 0x8080_8080_8080_8080u64 == 0);
+    *buf = x.to_le_bytes();
+    let n: usize = kani::any();
+    kani::assume(n <= n_max);
+    unsafe { core::str::from_utf8_unchecked(&buf[..n]) }
+}
 
-/// `[ASCII prefix, exactly P bytes][optionally ONE arbitrary Unicode scalar value][ASCII suffix, <= S bytes]`
-/// (P, S concrete per harness; with `wide == false` the prefix length is symbolic `<= P` instead).
-/// Every ASCII byte is an arbitrary 7-bit value. All buffer indices are concrete: the scalar is written
-/// right-aligned into a 4-byte window and the string starts inside that window.
-fn mk_str(buf: &mut [u8; CAP], p: usize, wide: bool, s_max: usize) -> &str {
-    // layout: [.. window of 4 bytes ..][suffix]; prefix bytes are placed immediately before the scalar
-    let all: u128 = kani::any();
-    kani::assume(all & 0x8080_8080_8080_8080_8080_8080_8080_8080u128 == 0);
-    *buf = all.to_le_bytes();
-    if !wide {
-        let n: usize = kani::any();
-        kani::assume(n <= p + s_max);
-        return unsafe { core::str::from_utf8_unchecked(&buf[..n]) };
-    }
-    // window occupies buf[p .. p+4] is wrong for right-alignment with a prefix, so the prefix is copied
-    // in front of the scalar per width case (4 cases, concrete indices each).
-    let s: usize = kani::any();
-    kani::assume(s <= s_max);
-    let base = 8usize; // scalar ends at buf[base], suffix is buf[base .. base+s]
-    let has: bool = kani::any();
-    if !has {
-        // pure ASCII: prefix directly before the suffix
-        return unsafe { core::str::from_utf8_unchecked(&buf[base - p..base + s]) };
-    }
+/// `[<= 1 ASCII byte (iff lead)][ONE arbitrary Unicode scalar value][ASCII tail <= t_max bytes]`
+/// the scalar is written right-aligned in front of the tail; a one-byte lead goes in front of it.
+fn wide(buf: &mut [u8; 16], lead: bool, t_max: usize) -> &str {
+    let x: u64 = kani::any();
+    kani::assume(x & 0x8080_8080_8080_8080u64 == 0);
+    let tail = x.to_le_bytes();
+    buf[8] = tail[0];
+    buf[9] = tail[1];
+    buf[10] = tail[2];
+    buf[11] = tail[3];
+    buf[12] = tail[4];
+    buf[13] = tail[5];
+    buf[14] = tail[6];
+    buf[15] = tail[7];
+    let t: usize = kani::any();
+    kani::assume(t <= t_max);
     let c: char = kani::any();
+    let lb: u8 = kani::any();
+    kani::assume(lb < 0x80);
     let mut tmp = [0u8; 4];
     let l = c.encode_utf8(&mut tmp).len();
-    let mut pre = [0u8; 4];
-    let mut k = 0usize;
-    while k < 4 {
-        if k < p {
-            pre[k] = buf[k];
-        }
-        k += 1;
-    }
+    let start;
     match l {
         1 => {
-            buf[base - 1] = tmp[0];
+            buf[7] = tmp[0];
+            buf[6] = lb;
+            start = 7;
         }
         2 => {
-            buf[base - 2] = tmp[0];
-            buf[base - 1] = tmp[1];
+            buf[6] = tmp[0];
+            buf[7] = tmp[1];
+            buf[5] = lb;
+            start = 6;
         }
         3 => {
-            buf[base - 3] = tmp[0];
-            buf[base - 2] = tmp[1];
-            buf[base - 1] = tmp[2];
+            buf[5] = tmp[0];
+            buf[6] = tmp[1];
+            buf[7] = tmp[2];
+            buf[4] = lb;
+            start = 5;
         }
         _ => {
-            buf[base - 4] = tmp[0];
-            buf[base - 3] = tmp[1];
-            buf[base - 2] = tmp[2];
-            buf[base - 1] = tmp[3];
+            buf[4] = tmp[0];
+            buf[5] = tmp[1];
+            buf[6] = tmp[2];
+            buf[7] = tmp[3];
+            buf[3] = lb;
+            start = 4;
         }
     }
-    let start = base - l - p;
-    let mut k = 0usize;
-    while k < 4 {
-        if k < p {
-            buf[start + k] = pre[k];
-        }
-        k += 1;
-    }
-    unsafe { core::str::from_utf8_unchecked(&buf[start..base + s]) }
+    let start = if lead { start - 1 } else { start };
+    unsafe { core::str::from_utf8_unchecked(&buf[start..8 + t]) }
 }
 
 /// printed only under native playback (Kani turns `eprintln!` into a no-op): the counterexample input
@@ -111,52 +109,44 @@ fn same_rest(a: &Option<&str>, b: &Option<&str>) -> bool {
     }
 }
 
+macro_rules! mk_input {
+    (ascii, $buf8:ident, $buf16:ident, $n:expr) => { ascii(&mut $buf8, $n) };
+    (wide0, $buf8:ident, $buf16:ident, $n:expr) => { wide(&mut $buf16, false, $n) };
+    (wide1, $buf8:ident, $buf16:ident, $n:expr) => { wide(&mut $buf16, true, $n) };
+}
+
 macro_rules! contract_eq {
-    ($(#[$m:meta])* $name:ident, $real:expr, $spec:expr, $p:expr, $w:expr, $s:expr) => {
+    ($(#[$m:meta])* $name:ident, $real:expr, $spec:expr, $cmp:ident, $shape:ident, $n:expr) => {
         $(#[$m])*
         #[kani::proof]
         #[kani::stub(unicode_xid::tables::derived_property::XID_Start, xid_start_stub)]
         #[kani::stub(unicode_xid::tables::derived_property::XID_Continue, xid_continue_stub)]
         fn $name() {
             init_xid();
-            let mut buf = [0u8; CAP];
-            let s = mk_str(&mut buf, $p, $w, $s);
+            let mut buf8 = [0u8; 8];
+            let mut buf16 = [0u8; 16];
+            let s = mk_input!($shape, buf8, buf16, $n);
             report(s);
             let r = $real(s);
             let e = $spec(s);
             kani::cover!(r.is_some(), "accepting input reachable");
             kani::cover!(r.is_none(), "rejecting input reachable");
-            assert!(same(&r, &e), "real == spec");
-        }
-    };
-}
-macro_rules! contract_eq_rest {
-    ($(#[$m:meta])* $name:ident, $real:expr, $spec:expr, $p:expr, $w:expr, $s:expr) => {
-        $(#[$m])*
-        #[kani::proof]
-        fn $name() {
-            let mut buf = [0u8; CAP];
-            let s = mk_str(&mut buf, $p, $w, $s);
-            report(s);
-            let r = $real(s);
-            let e = $spec(s);
-            kani::cover!(r.is_some(), "accepting input reachable");
-            kani::cover!(r.is_none(), "rejecting input reachable");
-            assert!(same_rest(&r, &e), "real == spec");
+            assert!($cmp(&r, &e), "real == spec");
         }
     };
 }
 
 // ---- level 0: character primitives ---------------------------------------------------------------
-contract_eq_rest!(ob_any_char, any_char, spec_any_char, 0, true, L0_TAIL);
-contract_eq!(ob_take_any_char, take_any_char, spec_take_any_char, 0, true, L0_TAIL);
+contract_eq!(#[kani::unwind(9)] ob_any_char, any_char, spec_any_char, same_rest, wide0, 1);
+contract_eq!(#[kani::unwind(9)] ob_take_any_char, take_any_char, spec_take_any_char, same, wide0, 1);
 
 #[kani::proof]
+#[kani::unwind(9)]
 fn ob_char() {
     // `char(c)` for EVERY c: Some(rest after c) iff the input starts with c
     let c: char = kani::any();
-    let mut buf = [0u8; CAP];
-    let s = mk_str(&mut buf, 0, true, L0_TAIL);
+    let mut buf16 = [0u8; 16];
+    let s = wide(&mut buf16, false, 1);
     report(s);
     let r = char(c)(s);
     let e = match first(s) {
@@ -164,14 +154,16 @@ fn ob_char() {
         _ => None,
     };
     kani::cover!(r.is_some(), "accepting input reachable");
+    kani::cover!(r.is_none(), "rejecting input reachable");
     assert!(same_rest(&r, &e), "real == spec");
 }
 
 #[kani::proof]
+#[kani::unwind(9)]
 fn ob_str2() {
-    // `str(lit)` for the two literals the grammar uses it with
-    let mut buf = [0u8; CAP];
-    let s = mk_str(&mut buf, 3, false, 0);
+    // `str(lit)` for the literals the grammar uses it with
+    let mut buf8 = [0u8; 8];
+    let s = ascii(&mut buf8, 3);
     report(s);
     let b = s.as_bytes();
     let r1 = str("{{")(s);
@@ -180,13 +172,15 @@ fn ob_str2() {
     let r2 = str("x?")(s);
     let e2 = if b.len() >= 2 && b[0] == b'x' && b[1] == b'?' { Some(&s[2..]) } else { None };
     kani::cover!(r2.is_some(), "accepting input reachable");
+    kani::cover!(r2.is_none(), "rejecting input reachable");
     assert!(same_rest(&r2, &e2), "str(\"x?\") == spec");
 }
 
 #[kani::proof]
+#[kani::unwind(9)]
 fn ob_one_of() {
-    let mut buf = [0u8; CAP];
-    let s = mk_str(&mut buf, 0, true, L0_TAIL);
+    let mut buf16 = [0u8; 16];
+    let s = wide(&mut buf16, false, 1);
     report(s);
     let r = one_of("{}")(s);
     let e = match first(s) {
@@ -194,82 +188,98 @@ fn ob_one_of() {
         _ => None,
     };
     kani::cover!(r.is_some(), "accepting input reachable");
+    kani::cover!(r.is_none(), "rejecting input reachable");
     assert!(same_rest(&r, &e), "real == spec");
 }
-
-#[kani::proof]
-fn ob_whitespaces() {
-    let mut buf = [0u8; CAP];
-    let s = mk_str(&mut buf, 1, true, 2);
-    report(s);
-    let r = whitespaces(s);
-    let e = Some(spec_ws(s));
-    kani::cover!(r.map(|x| x.len() < s.len()).unwrap_or(false), "some whitespace consumed");
-    assert!(same_rest(&r, &e), "real == spec");
-}
-
-// ---- level 1 ---------------------------------------------------------------------------------------
-contract_eq!(ob_text, text, spec_text, 1, true, L1_TAIL);
-contract_eq!(ob_identifier, identifier, spec_identifier, 1, true, L1_TAIL);
-contract_eq!(ob_identifier_mid, identifier, spec_identifier, 2, true, 1);
-contract_eq!(ob_integer, integer, spec_integer, L1_INT, false, 0);
-
-// ---- level 2 ---------------------------------------------------------------------------------------
-contract_eq!(ob_align, align, spec_align, 0, true, 1);
-contract_eq!(ob_sign, sign, spec_sign, 0, true, 1);
-contract_eq!(
-    #[kani::stub(super::whitespaces, spec_ws_opt)]
-    ob_type, type_, spec_type, L2_TYPE, true, 1);
-contract_eq!(
-    #[kani::stub(super::identifier, spec_identifier)]
-    #[kani::stub(super::integer, spec_integer)]
-    ob_argument, argument, spec_argument, L2, true, 1);
-contract_eq!(
-    #[kani::stub(super::argument, spec_argument)]
-    ob_parameter, parameter, spec_parameter, L2, true, 1);
-contract_eq!(
-    #[kani::stub(super::parameter, spec_parameter)]
-    #[kani::stub(super::integer, spec_integer)]
-    ob_count, count, spec_count, L2, true, 1);
-contract_eq!(
-    #[kani::stub(super::count, spec_count)]
-    ob_precision, precision, spec_precision, L2, true, 1);
 
 pub(crate) fn spec_ws_opt(input: &str) -> Option<&str> {
     Some(spec_ws(input))
 }
+#[kani::proof]
+#[kani::unwind(9)]
+fn ob_whitespaces() {
+    let mut buf16 = [0u8; 16];
+    let s = wide(&mut buf16, true, W_WS);
+    report(s);
+    let r = whitespaces(s);
+    let e = spec_ws_opt(s);
+    kani::cover!(r.map(|x| x.len() < s.len()).unwrap_or(false), "some whitespace consumed");
+    kani::cover!(r.map(|x| x.len() == s.len()).unwrap_or(false), "no whitespace consumed");
+    assert!(same_rest(&r, &e), "real == spec");
+}
+
+// ---- level 1 ---------------------------------------------------------------------------------------
+contract_eq!(#[kani::unwind(9)] ob_text, text, spec_text, same, ascii, A_L1);
+contract_eq!(#[kani::unwind(9)] ob_text_wide, text, spec_text, same, wide1, W_L1);
+contract_eq!(#[kani::unwind(9)] ob_identifier, identifier, spec_identifier, same, ascii, A_L1);
+contract_eq!(#[kani::unwind(9)] ob_identifier_wide, identifier, spec_identifier, same, wide1, W_L1);
+contract_eq!(#[kani::unwind(9)] ob_integer, integer, spec_integer, same, ascii, A_INT);
+
+// ---- level 2 ---------------------------------------------------------------------------------------
+contract_eq!(#[kani::unwind(9)] ob_align, align, spec_align, same, wide0, 1);
+contract_eq!(#[kani::unwind(9)] ob_sign, sign, spec_sign, same, wide0, 1);
+contract_eq!(
+    #[kani::unwind(13)]
+    #[kani::stub(super::whitespaces, spec_ws_opt)]
+    ob_type, type_, spec_type, same, ascii, A_TYPE);
+contract_eq!(
+    #[kani::unwind(9)]
+    #[kani::stub(super::identifier, spec_identifier)]
+    #[kani::stub(super::integer, spec_integer)]
+    ob_argument, argument, spec_argument, same, ascii, A_L2);
+contract_eq!(
+    #[kani::unwind(9)]
+    #[kani::stub(super::argument, spec_argument)]
+    ob_parameter, parameter, spec_parameter, same, ascii, A_L2);
+contract_eq!(
+    #[kani::unwind(9)]
+    #[kani::stub(super::parameter, spec_parameter)]
+    #[kani::stub(super::integer, spec_integer)]
+    ob_count, count, spec_count, same, ascii, A_L2);
+contract_eq!(
+    #[kani::unwind(9)]
+    #[kani::stub(super::count, spec_count)]
+    ob_precision, precision, spec_precision, same, ascii, A_L2);
 
 // ---- level 3 ---------------------------------------------------------------------------------------
 contract_eq!(
+    #[kani::unwind(9)]
     #[kani::stub(super::align, spec_align)]
     #[kani::stub(super::sign, spec_sign)]
     #[kani::stub(super::count, spec_count)]
     #[kani::stub(super::precision, spec_precision)]
     #[kani::stub(super::type_, spec_type)]
-    ob_format_spec, format_spec, spec_format_spec, L3_SPEC, false, 0);
+    ob_format_spec, format_spec, spec_format_spec, same, ascii, A_SPEC);
 contract_eq!(
+    #[kani::unwind(9)]
     #[kani::stub(super::align, spec_align)]
     #[kani::stub(super::sign, spec_sign)]
     #[kani::stub(super::count, spec_count)]
     #[kani::stub(super::precision, spec_precision)]
     #[kani::stub(super::type_, spec_type)]
-    ob_format_spec_wide_fill, format_spec, spec_format_spec, 0, true, L3_SPEC_W);
+    ob_format_spec_wide_fill, format_spec, spec_format_spec, same, wide0, W_SPEC);
 contract_eq!(
+    #[kani::unwind(9)]
     #[kani::stub(super::argument, spec_argument)]
     #[kani::stub(super::format_spec, spec_format_spec)]
     #[kani::stub(super::whitespaces, spec_ws_opt)]
-    ob_format, format, spec_format, L3_FMT, true, 1);
+    ob_format, format, spec_format, same, ascii, A_FMT);
 contract_eq!(
+    #[kani::unwind(9)]
     #[kani::stub(super::format, spec_format)]
-    ob_maybe_format, maybe_format, spec_maybe_format, L3_FMT, false, 0);
+    ob_maybe_format, maybe_format, spec_maybe_format, same, ascii, A_FMT);
 
 // ---- level 4 ---------------------------------------------------------------------------------------
 #[kani::proof]
+#[kani::unwind(9)]
+#[kani::stub(unicode_xid::tables::derived_property::XID_Start, xid_start_stub)]
+#[kani::stub(unicode_xid::tables::derived_property::XID_Continue, xid_continue_stub)]
 #[kani::stub(super::maybe_format, spec_maybe_format)]
 #[kani::stub(super::text, spec_text)]
 fn ob_format_string() {
-    let mut buf = [0u8; CAP];
-    let s = mk_str(&mut buf, L4, false, 0);
+    init_xid();
+    let mut buf8 = [0u8; 8];
+    let s = ascii(&mut buf8, A_FS);
     report(s);
     let r = format_string(s);
     let e = spec_format_string(s);
@@ -279,26 +289,35 @@ fn ob_format_string() {
     assert!(r == e, "real == spec");
 }
 
-// ---- C18: totality of the slicing arithmetic on arbitrary scalars and long digit strings -------------
+// ---- C18: totality of the arithmetic on long digit strings --------------------------------------------
 #[kani::proof]
+#[kani::unwind(24)]
 fn tot_integer_long() {
     // digit strings up to 21 chars: a value beyond usize is `None`, never a panic / overflow
+    let x: u128 = kani::any();
+    let y: u64 = kani::any();
     let mut buf = [0u8; 24];
-    let n: usize = kani::any();
-    kani::assume(n <= 21);
+    let xb = x.to_le_bytes();
+    let yb = y.to_le_bytes();
     let mut i = 0;
-    while i < 21 {
-        if i < n {
-            let d: u8 = kani::any();
-            kani::assume(d < 10);
-            buf[i] = b'0' + d;
-        }
+    while i < 16 {
+        kani::assume(xb[i] < 10);
+        buf[i] = b'0' + xb[i];
         i += 1;
     }
+    let mut j = 0;
+    while j < 5 {
+        kani::assume(yb[j] < 10);
+        buf[16 + j] = b'0' + yb[j];
+        j += 1;
+    }
+    let n: usize = kani::any();
+    kani::assume(n <= 21);
     let s = unsafe { core::str::from_utf8_unchecked(&buf[..n]) };
     report(s);
     let r = integer(s);
     kani::cover!(n == 21 && r.is_none(), "overflowing literal reachable");
+    kani::cover!(n == 20 && r.is_some(), "20-digit literal that fits reachable");
     if let Some((rest, _)) = r {
         assert!(rest.is_empty(), "all digits consumed");
     }
